@@ -1,5 +1,7 @@
 pub mod helper;
 pub mod model;
+#[cfg(xml_rs_verif)]
+pub mod verif;
 pub mod xmlchar;
 
 use nom::branch::alt;
